@@ -23,6 +23,7 @@ CONSTANTS
   CHAIN = FALSE
   WILD = FALSE
   FIXMODEL = "intended"
+  ANYRATIO = FALSE
   BASEMOD = 4
   CODED = TRUE
   EMIT = FALSE
